@@ -69,6 +69,8 @@ def chan_forms(rng, s):
              ('list-pos', pos, pos), ('list-name', [s.channels[q] for q in pos], pos),
              ('single-list', [s.channels[p]], [p]),
              ('mixed', [s.channels[q] if i % 2 else q for i, q in enumerate(pos)], pos)]
+    dpos = pos + [pos[0]] + ([pos[-1]] if len(pos) > 1 else [])
+    forms.append(('list-duplicates', [s.channels[q] if i % 2 else q for i, q in enumerate(dpos)], dpos))
     # other legal spellings of the list forms (tuple / ndarray / NumPy integers and strings): a refusal of one of
     # these is observed only ('x:' prefix), an accepted one is judged like every other form
     names = [s.channels[q] for q in pos]
